@@ -907,6 +907,40 @@ Proof.
     split; auto. eapply index_of_inj; eauto.
 Qed.
 
+Lemma index_of_nth_NoDup : forall l i x, NoDup l -> nth_error l i = Some x -> index_of x l = Some i.
+Proof.
+  induction l; intros i x Hnd H; destruct i; simpl in *; try discriminate.
+  - inversion H; subst. rewrite Nat.eqb_refl. auto.
+  - inversion Hnd; subst. destruct (Nat.eqb_spec x a).
+    + subst. exfalso. apply H2. eapply nth_error_In; eauto.
+    + rewrite (IHl _ _ H3 H). auto.
+Qed.
+
+(* the two sides of the matching agree: the send that a receive is matched with is matched with that receive
+   (so a synchronous send waits exactly for the receive that will take its payload) *)
+Theorem matching_symmetric : forall cu hs w q ws pq v,
+  (forall c, NoDup (members cu c)) ->
+  recv_partner cu hs w q = Some (ws, pq, v) -> send_partner cu hs ws pq = Some (w, q).
+Proof.
+  intros cu hs w q ws pq v Hcu H. unfold recv_partner in H.
+  destruct (req_of (hist_of hs w) q) as [[]|] eqn:Er; try discriminate.
+  destruct (lrank cu c w) as [me|] eqn:El; try discriminate.
+  destruct (wrank cu c src) as [ws'|] eqn:Ew; try discriminate.
+  destruct (index_of q (chan_recvs (hist_of hs w) c src tag)) as [i|] eqn:Ei; try discriminate.
+  destruct (nth_error (chan_sends (hist_of hs ws') c me tag) i) as [[pq' v']|] eqn:En; try discriminate.
+  inversion H; subst ws' pq' v'.
+  destruct (chan_sends_req _ _ _ _ _ _ _ En) as [sync Hs].
+  unfold send_partner. rewrite Hs.
+  assert (Hl2 : lrank cu c ws = Some src).
+  { unfold lrank, wrank in *. apply index_of_nth_NoDup; auto. }
+  assert (Hw2 : wrank cu c me = Some w).
+  { unfold lrank, wrank in *. apply index_of_nth_error. auto. }
+  rewrite Hl2, Hw2.
+  assert (Hi2 : index_of pq (map fst (chan_sends (hist_of hs ws) c me tag)) = Some i).
+  { apply index_of_nth_NoDup. apply chan_sends_nodup. erewrite map_nth_error; eauto. auto. }
+  rewrite Hi2. rewrite (index_of_nth_error _ _ _ Ei). auto.
+Qed.
+
 (* and the executions accepted by the checker only ever deliver the payload of that partner *)
 Theorem legal_wait_delivers_partner : forall cu eager hs w q ws pq v,
   legal cu eager hs w (EWait q (Some (ws, pq)) v) -> recv_partner cu hs w q = Some (ws, pq, v).
